@@ -1,6 +1,7 @@
 from typing import Sequence
 
 from pbhhg_py import abstract_syntax as AS
+from pbhhg_py import error
 from pbhhg_py import utils
 
 
@@ -86,6 +87,10 @@ def build_tbl(
         acc = init
         feed = seq.value[::step]
         if acc is None:
+            if not feed:
+                raise error.UnsuspectedHangeulValueError(
+                    metadata, "초깃값 없이 빈 목록을 수렴할 수 없습니다."
+                )
             acc = feed[0]
             feed = feed[1:]
 
